@@ -642,4 +642,13 @@ def gen_history(rng, cls='valid', n_ops=None, sync=False):
     ops = g.gen(n_ops or rng.choice([4, 8, 12, 20, 30]))
     # Server.latency: the time of the bundle a bind() block sends and of release(); 0 is the NRT default
     lat = rng.choice([None, None, '0', '1/4', '1'])
-    return {'cls': cls, 'ops': ops, 'tags': sorted(g.tags), 'latency': lat}
+    # login configuration: default (one login, client 0) or a client id of several logins, with or without reserved ids
+    cfg = None
+    if rng.random() < 0.35:
+        m = rng.choice([2, 2, 3, 4])
+        cfg = {'max_logins': m, 'client_id': rng.randrange(m)}
+        if rng.random() < 0.4:
+            cfg.update({'reserved_buffers': rng.choice([0, 3]), 'reserved_control_buses': rng.choice([0, 2]),
+                        'reserved_audio_buses': rng.choice([0, 2])})
+        g.tags.add('client-%d-of-%d' % (cfg['client_id'], m))
+    return {'cls': cls, 'ops': ops, 'tags': sorted(g.tags), 'latency': lat, 'config': cfg}
